@@ -302,6 +302,151 @@ fn verif_c04_cross_lane_attack() {
     rec.finish();
 }
 
+// ---- every malicious-context opening compares the two received copies ---------------------------------------
+
+/// kinds: 0 = MAC ctx / plain share, 1 = MAC ctx / MAC share, 2 = sharded MAC ctx / plain share,
+/// 3 = sharded MAC ctx / MAC share, 4 = DZKP malicious ctx / plain share, 5 = sharded DZKP malicious ctx / plain share
+const REVEAL_KINDS: [&str; 6] = ["mac/plain", "mac/upgraded", "sharded-mac/plain", "sharded-mac/upgraded", "dzkp/plain", "sharded-dzkp/plain"];
+
+macro_rules! open_with {
+    ($ctx:expr, $share:expr, $kind:expr) => {{
+        let ctx = $ctx.set_total_records(TotalRecords::ONE);
+        let share: Replicated<Fp32BitPrime> = $share;
+        catch_fut(async move {
+            let rid = RecordId::FIRST;
+            match $kind {
+                0 | 2 => {
+                    let v = ctx.validator::<Fp32BitPrime>();
+                    let m = v.context();
+                    let o = share.reveal(m.narrow("c04-open"), rid).await?;
+                    Ok::<_, Error>(Fp32BitPrime::from_array(&o).as_u128())
+                }
+                1 | 3 => {
+                    let v = ctx.validator::<Fp32BitPrime>();
+                    let m = v.context();
+                    let up = share.upgrade(m.narrow("c04-up"), rid).await?;
+                    m.validate_record(rid).await?;
+                    let o = up.reveal(m.narrow("c04-open"), rid).await?;
+                    Ok(Fp32BitPrime::from_array(&o).as_u128())
+                }
+                _ => {
+                    let v = ctx.dzkp_validator(crate::protocol::context::TEST_DZKP_STEPS, 1);
+                    let m = v.context();
+                    let o = share.reveal(m.narrow("c04-open"), rid).await?;
+                    Ok(Fp32BitPrime::from_array(&o).as_u128())
+                }
+            }
+        })
+    }};
+}
+
+async fn reveal_world(kind: usize, seed: u64, interceptor: DynStreamInterceptor) -> Vec<[HelperRes; 3]> {
+    use crate::protocol::context::dzkp_validator::DZKPValidator;
+    let mut cfg = TestWorldConfig::default();
+    cfg.seed = seed;
+    cfg.timeout = None;
+    cfg.stream_interceptor = interceptor;
+    let mut r = VRng::new(seed ^ 0x0be4, 1);
+    let secret = Fp32BitPrime::truncate_from(77_777u128 + u128::from(seed % 1000));
+    let conv = |x: Result<Result<u128, Error>, String>| -> HelperRes { x.map(|r| r.map(|v| vec![v]).map_err(|e| format!("{e:?}"))) };
+    if kind == 2 || kind == 3 || kind == 5 {
+        let world = TestWorld::<crate::test_fixture::WithShards<2>>::with_shards(&cfg);
+        let ctxs = world.malicious_contexts();
+        let mut futs = Vec::new();
+        let shares: [[Replicated<Fp32BitPrime>; 3]; 2] = [share_field(secret, &mut r), share_field(secret, &mut r)];
+        for (h, hctx) in ctxs.into_iter().enumerate() {
+            for (sh, ctx) in hctx.into_iter().enumerate() {
+                let share = shares[sh][h].clone();
+                futs.push(async move { (sh, h, open_with!(ctx, share, kind).await) });
+            }
+        }
+        let mut out: Vec<[HelperRes; 3]> = vec![std::array::from_fn(|_| Err("missing".into())), std::array::from_fn(|_| Err("missing".into()))];
+        for (sh, h, r) in join_all(futs).await {
+            out[sh][h] = conv(r);
+        }
+        out
+    } else {
+        let world = TestWorld::new_with(&cfg);
+        let ctxs = world.malicious_contexts();
+        let shares = share_field(secret, &mut r);
+        let futs = ctxs.into_iter().zip(shares).map(|(ctx, share)| async move { open_with!(ctx, share, kind).await });
+        let v = join_all(futs).await;
+        let mut it = v.into_iter();
+        vec![[conv(it.next().unwrap()), conv(it.next().unwrap()), conv(it.next().unwrap())]]
+    }
+}
+
+#[test]
+fn verif_c04_reveal_copies() {
+    let env = vlib::env();
+    let mut rec = Recorder::new("C04", "verif_c04_reveal_copies");
+    let mut idx = 0usize;
+    for kind in 0..REVEAL_KINDS.len() {
+        for rep in 0..env.pick(1, 4) {
+            let seed = env.seed.wrapping_mul(9001) + (kind * 10 + rep) as u64;
+            let st = Arc::new(Mutex::new(TapState::default()));
+            let honest = vlib::run_paused(Duration::from_secs(60), reveal_world(kind, seed, wl::tap(Arc::clone(&st))));
+            let st = std::mem::take(&mut *st.lock().unwrap());
+            let want = 77_777u128 + u128::from(seed % 1000);
+            let honest_ok = matches!(&honest, Paused::Done(v) if v.iter().all(|s| s.iter().all(|h| matches!(h, Ok(Ok(x)) if x == &vec![want]))));
+            idx += 1;
+            if env.mine(idx) {
+                rec.eval();
+                if honest_ok {
+                    rec.count("honest_openings_ok");
+                    rec.distinct(&("open", kind, rep));
+                } else {
+                    rec.violation("an honest opening failed or returned a wrong value", json!({"kind": "honest_open_failed", "flavour": REVEAL_KINDS[kind]}),
+                        json!({"case": idx, "seed": seed, "res": match &honest { Paused::Done(v) => format!("{v:?}").chars().take(300).collect::<String>(), Paused::Quiescent => "quiescent".into() }}));
+                }
+            }
+            if !honest_ok {
+                continue;
+            }
+            // alter each chunk of the opening step, one at a time
+            for c in st.chunks.iter().filter(|c| c.key.gate.contains("c04-open")) {
+                for pat in 0..2 {
+                    idx += 1;
+                    if !env.mine(idx) {
+                        continue;
+                    }
+                    let pattern = if pat == 0 { Pattern::AddOne { byte: 0, width: 4 } } else { Pattern::FlipBit { byte: 1, bit: 3 } };
+                    let fault = Fault { key: c.key.clone(), chunk_no: c.chunk_no, pattern };
+                    let st2 = Arc::new(Mutex::new(TapState { fault: Some(fault.clone()), ..Default::default() }));
+                    let out = vlib::run_paused(Duration::from_secs(60), reveal_world(kind, seed, wl::tap(Arc::clone(&st2))));
+                    let applied = st2.lock().unwrap().fault_applied;
+                    if !matches!(applied, Some((_, true))) {
+                        rec.count("fault_not_applied");
+                        continue;
+                    }
+                    rec.eval();
+                    let shard = c.key.shard as usize;
+                    let dst = c.key.dst as usize;
+                    // the receiver of the altered copy must not open a value
+                    let receiver_opened = match &out {
+                        Paused::Quiescent => false,
+                        Paused::Done(v) => matches!(&v[shard.min(v.len() - 1)][dst], Ok(Ok(_))),
+                    };
+                    if receiver_opened {
+                        rec.violation(
+                            "a helper opened a value although one of the two copies of the missing share it received was altered",
+                            json!({"kind": "opened_with_mismatching_copies", "flavour": REVEAL_KINDS[kind]}),
+                            json!({"case": idx, "seed": seed, "fault": fault.to_json(),
+                                   "res": match &out { Paused::Done(v) => format!("{v:?}").chars().take(300).collect::<String>(), Paused::Quiescent => "quiescent".into() }}),
+                        );
+                    } else {
+                        rec.count("altered_copy_rejected");
+                        rec.seen("reveal_flavours_faulted", REVEAL_KINDS[kind]);
+                        rec.distinct(&("open-fault", kind, c.key.src, c.key.dst, c.key.shard, pat));
+                    }
+                }
+            }
+        }
+    }
+    rec.sample(json!({"flavours": REVEAL_KINDS}));
+    rec.finish();
+}
+
 pub fn run_mac(case: &MacCase, fault: Option<Fault>) -> (Paused<(Vec<HelperRes>, Vec<u128>)>, TapState) {
     let st = Arc::new(Mutex::new(TapState { fault, ..Default::default() }));
     let tap = wl::tap(Arc::clone(&st));
